@@ -15,7 +15,7 @@ pub fn def() -> PropDef {
         predicate,
         nontrivial,
         functional: false,
-        rule: "all trees over &&, ||, ?: of depth <= 1 and a quarter of depth 2 (quick) / all of depth <= 2 (thorough) over the operand kinds (true, false, division by zero, overflow, missing key, undeclared name, failing host function, call-logging host functions returning true/false), random trees to depth 4, each also wrapped as the body of map/filter/all/exists macros; the predicate re-evaluates the tree with an independent reference interpreter of the short-circuit rules and requires the same outcome and the same ordered call log; non-trivial = at least one operand is skipped by the rules; distinct = distinct source text",
+        rule: "all trees over &&, ||, ?: of depth <= 1 and a quarter of depth 2 (quick) / all of depth <= 2 (thorough) over the operand kinds (true, false, division by zero, overflow, missing key, undeclared variable, call of an unregistered function in global and receiver style, failing host function, call-logging host functions returning true/false), random trees to depth 4, each also wrapped as the body of map/filter/all/exists macros; the predicate re-evaluates the tree with an independent reference interpreter of the short-circuit rules and requires the same outcome and the same ordered call log; non-trivial = at least one operand is skipped by the rules; distinct = distinct source text",
         post: super::no_post,
         exhaustive_note: "depth <= 1 enumeration is complete in the quick tier (depth 2 over every 4th subtree); depth <= 2 is complete in the thorough tier",
     }
@@ -33,11 +33,15 @@ pub enum L {
     Cond(Box<L>, Box<L>, Box<L>),
 }
 
-const ERRS: [(&str, &str); 4] = [
+const ERRS: [(&str, &str); 6] = [
     ("(1 / 0 == 1)", "div0"),
     ("(9223372036854775807 + 1 == 0)", "overflow"),
     ("m.missing", "nosuchkey"),
     ("zz", "undeclared"),
+    // calls of functions nobody registered, global and receiver style (a skipped operand may
+    // mention them; a reached one fails with the function's name)
+    ("nosuch(1)", "undeclared x6e6f73756368"),
+    ("m.nosuchm(1)", "undeclared x6e6f737563686d"),
 ];
 
 impl L {
